@@ -122,18 +122,26 @@ Theorem C14_refuted_subquery_same_alias_same_from :
 Proof. vm_compute. repeat split; eexists; reflexivity. Qed.
 Print Assumptions C14_refuted_subquery_same_alias_same_from.
 
-(* C14-join-operand-invisible-to-nodes: from_(a).join(b).on(a.x == -zz.y) is accepted: Negative.nodes_ does not visit
-   its operand; with zz.y in any operand nodes_ visits (here: the upper bound of a BETWEEN) it is rejected *)
 Definition fzz : jterm := JF (Some (TTab tzz), "y").
 Definition fa : jterm := JF (Some (TTab ta), "x").
 Definition fb : jterm := JF (Some (TTab tb), "x").
-Theorem C14_refuted_operand_invisible_to_nodes :
-  wf_q sel_a (QJoin (TTab tb) (JOn (Some (JBin fa (JHid [] [fzz]))))) = true
-  /\ (exists s', step_q sel_a (QJoin (TTab tb) (JOn (Some (JBin fa (JHid [] [fzz]))))) = Ok s')
-  /\ first_fired guards_q (sel_a, QJoin (TTab tb) (JOn (Some (JBin fa (JHid [] [fzz]))))) = Some JoinExc
-  /\ step_q sel_a (QJoin (TTab tb) (JOn (Some (JTri fa fb fzz)))) = Err JoinExc.
-Proof. vm_compute. repeat split; eexists; reflexivity. Qed.
-Print Assumptions C14_refuted_operand_invisible_to_nodes.
+(* repaired by d11365b (findings C14-join-operand-invisible-to-nodes, ...-with): a foreign table inside -x,
+   x AT TIME ZONE, FILTER(WHERE ..) or OVER(PARTITION BY .. ORDER BY ..) is rejected like anywhere else, and an undefined
+   WITH query there is reported when the statement is rendered -- inside the fragment, as the table documents *)
+Theorem C14_operand_positions_repaired :
+  let neg := JBin fa (JUn fzz) in                                  (* a.x == -zz.y ; a.x == zz.y AT TIME ZONE .. *)
+  let over := JBin fa (JFn [fb; fzz]) in                           (* a.x == SUM(b.x) OVER(PARTITION BY zz.y) / FILTER(..) *)
+  let wneg := JBin fa (JUn (JF (Some (TAlq "w9"), "y"))) in
+  frag_q sel_a (QJoin (TTab tb) (JOn (Some neg))) && frag_q sel_a (QJoin (TTab tb) (JOn (Some over))) = true
+  /\ step_q sel_a (QJoin (TTab tb) (JOn (Some neg))) = Err JoinExc
+  /\ first_fired guards_q (sel_a, QJoin (TTab tb) (JOn (Some neg))) = Some JoinExc
+  /\ step_q sel_a (QJoin (TTab tb) (JOn (Some over))) = Err JoinExc
+  /\ snd (run step_q sel_a [QJoin (TTab tb) (JOn (Some wneg)); QSelect [SStr true]; QRender; QWith "w9"; QRender])
+     = [None; None; Some JoinExc; None; None]
+  /\ spec_outs guards_q step_q sel_a [QJoin (TTab tb) (JOn (Some wneg)); QSelect [SStr true]; QRender; QWith "w9"; QRender]
+     = [None; None; Some JoinExc; None; None].
+Proof. vm_compute. repeat split. Qed.
+Print Assumptions C14_operand_positions_repaired.
 
 Theorem C14_refuted : ~ C14_full_statement.
 Proof.
@@ -195,7 +203,7 @@ Print Assumptions C14_resolve_closed_form.
 (* non-vacuity: states and calls on both sides of the guards                                   *)
 (* ------------------------------------------------------------------------------------------ *)
 Example C14_example_join :
-  let s := set_joins sel_a [mkJ (TTab tb) (Some [ta; tb]) [] []] in
+  let s := set_joins sel_a [mkJ (TTab tb) (Some [ta; tb]) []] in
   let tc := mkPT "c" None None in
   let good := crit_of_pairs [((Some (TTab tb), "x"), (Some (TTab tc), "x")); ((None, "k"), (Some (TTab ta), "k"))] in
   let bad := crit_of_pairs [((Some (TTab tzz), "x"), (Some (TTab tc), "x"))] in
@@ -221,12 +229,12 @@ Example C14_example_subquery :
      = [Some JoinExc; Some JoinExc; None; None; None; Some JoinExc].
 Proof. vm_compute. split; reflexivity. Qed.
 
-(* the foreign table in every operand position nodes_ visits: each criterion is rejected, and is inside the fragment *)
+(* the foreign table in every operand position: each criterion is rejected, and is inside the fragment *)
 Example C14_example_every_position :
   let cs := [JBin fzz fb; JBin fa fzz; JTri fzz fa fb; JTri fa fzz fb; JTri fa fb fzz; JIn fzz [fb; JConst]; JIn fa [fb; fzz];
              JUn fzz; JBin (JBin fa fb) (JUn fzz); JBin fa (JFn [fb; fzz]); JBin fa (JCase [(JBin fzz JConst, fb)] (Some fb));
              JBin fa (JCase [(JBin fb JConst, fzz)] (Some fb)); JBin fa (JCase [(JBin fb JConst, fb)] (Some fzz));
-             JBin fa (JBin fb (JBin JConst fzz)); JBin (JBin fa fb) (JBin (JBin fa fb) (JBin fa fzz)); JBin fa (JHid [fzz] [fb])] in
+             JBin fa (JBin fb (JBin JConst fzz)); JBin (JBin fa fb) (JBin (JBin fa fb) (JBin fa fzz)); JBin fa (JUn (JBin fb (JFn [JUn fzz])))] in
   forallb (fun c => wf_q sel_a (QJoin (TTab tb) (JOn (Some c))) && frag_q sel_a (QJoin (TTab tb) (JOn (Some c)))) cs = true
   /\ forallb (fun c => match step_q sel_a (QJoin (TTab tb) (JOn (Some c))) with Err e => String.eqb e JoinExc | Ok _ => false end) cs = true
   /\ (exists s', step_q sel_a (QJoin (TTab tb) (JOn (Some (JBin fa (JTri fb (JFn [fa; JConst]) (JCase [(JUn fa, fb)] None)))))) = Ok s').
